@@ -64,7 +64,7 @@ def sensitivity(run):
     """each former design of golib must be refuted by the model: the invariants are not vacuous"""
     res = {}
     for cfg, inv, what in ASIS:
-        r = run.tlc("MC_FileConfig", cfg=cfg, workers=2, timeout=900)
+        r = run.tlc("MC_FileConfig", cfg=cfg, workers=2, timeout=900, heap="3g")
         hit = re.search(r"Invariant (\w+) is violated", r["out"])
         if r["clean"] or not hit or hit.group(1) != inv:
             raise vf.MachineryError("the model does not refute %s for the design '%s' (%s):\n%s" % (inv, what, cfg, vf.tail(r["out"])))
@@ -218,9 +218,10 @@ def body(run):
 
     # the design-level runs do not depend on the driver: they run beside it (one TLC at a time)
     def design():
-        run.mc("MC_FileConfig", cfg="MC_FileConfig_thorough.cfg" if th else "MC_FileConfig.cfg", workers=run.pick(4, 16), coverage=not th)
+        # (bounded heaps: the default -- a quarter of the machine's memory per JVM -- invites the OOM killer on a shared box)
+        run.mc("MC_FileConfig", cfg="MC_FileConfig_thorough.cfg" if th else "MC_FileConfig.cfg", workers=run.pick(4, 16), coverage=not th, heap=run.pick("3g", "6g"))
         # the observer registry written at any time (two names, two further observers) against edits, deletions and reloads
-        run.mc("MC_FileConfig", cfg="MC_FileConfig_obs_thorough.cfg" if th else "MC_FileConfig_obs.cfg", workers=run.pick(4, 16))
+        run.mc("MC_FileConfig", cfg="MC_FileConfig_obs_thorough.cfg" if th else "MC_FileConfig_obs.cfg", workers=run.pick(4, 16), heap=run.pick("3g", "6g"))
         sensitivity(run)
 
     pool = ThreadPoolExecutor(max_workers=1)
